@@ -53,7 +53,9 @@ fn main() {
         "replay" => by_kind!(kind, replay, &args),
         "bggc" => by_kind!(kind, bggc, &args),
         "gcchurn" => by_kind!(kind, gcchurn, &args),
+        "widevars" => by_kind!(kind, widevars, &args),
         "tdd" => drv_mv::tdd(&args),
+        "tddwide" => drv_mv::tddwide(&args),
         #[cfg(feature = "idx")]
         "mtbdd" => drv_mt::mtbdd(&args),
         #[cfg(feature = "idx")]
